@@ -22,6 +22,7 @@ def plan(tier, seed, excl):
     t += [('sizes', {'shard': i, 'of': 8, 'tier': tier}) for i in range(8)]
     t.append(('after-failed-dump', {}))
     t.append(('fixed-offset', {}))
+    t += [('independent-results', {'shard': i, 'of': 4, 'n': 300 if q else 4000}) for i in range(4)]
     t += [('grids', {'shard': i, 'n': 2500 if q else 30000}) for i in range(16)]
     return t
 
